@@ -215,6 +215,7 @@ def main() -> int:
     n_viol = 0
     rdir = os.path.join(ROOT, "out", "replays", prop)
     reported = set()
+    pending: List[Tuple[Dict[str, Any], str, Dict[str, Any]]] = []
     for o in violated:
         key = (o["name"], o["job"])
         if key in reported:
@@ -236,13 +237,31 @@ def main() -> int:
             "seed": seed,
         }
         json.dump(rj, open(path, "w"), indent=1, default=str)
+        pending.append((o, path, rj))
+    # replays on the real code, several per interpreter start (torch import dominates); a replay that
+    # mutates process-wide state can only affect the few replays that share its process
+    BATCH = 6
+    outcome: Dict[str, Tuple[bool, str]] = {}
+    for b in range(0, len(pending), BATCH):
+        chunk = [p_ for _, p_, _ in pending[b : b + BATCH]]
         try:
-            rr = subprocess.run([VENV_PY, os.path.join(ROOT, "replay", "replay.py"), path], capture_output=True, text=True, timeout=600)
-            reproduced = rr.returncode == 1
-            rj["replay_output"] = (rr.stdout + rr.stderr)[-3000:]
+            rr = subprocess.run([VENV_PY, os.path.join(ROOT, "replay", "replay.py"), "--batch"] + chunk, capture_output=True, text=True, timeout=1800)
+            buf: List[str] = []
+            for line in (rr.stdout or "").splitlines():
+                if line.startswith("RESULT "):
+                    _, code, pth = line.split(" ", 2)
+                    outcome[pth] = (code == "1", "\n".join(buf)[-3000:])
+                    buf = []
+                else:
+                    buf.append(line)
+            for pth in chunk:
+                outcome.setdefault(pth, (False, "replay produced no result: " + (rr.stderr or "")[-1500:]))
         except Exception as e:
-            reproduced = False
-            rj["replay_output"] = f"replay failed to run: {e}"
+            for pth in chunk:
+                outcome.setdefault(pth, (False, f"replay failed to run: {e}"))
+    for o, path, rj in pending:
+        reproduced, rout = outcome.get(path, (False, "not replayed"))
+        rj["replay_output"] = rout
         rj["reproduced_on_real_code"] = reproduced
         json.dump(rj, open(path, "w"), indent=1, default=str)
         if not reproduced and (o.get("info") or {}).get("generic_ops"):
